@@ -285,6 +285,42 @@ def tr_join_links(join_fn, out_fn, in_fn):
             "  Some (loc_out, map (fun pin => match cget pin cdA with Some y => y | None => dpin end) loc_out).\n")
 
 
+def tr_join_tables(join_fn):
+    """the link table and the neighbour list of the merged structure (the last two loops of Structure.join)"""
+    body = strip_doc(join_fn.body)
+    texts = [ast.unparse(x) for x in body]
+    want = ["for st1 in self.connected_to + st.connected_to:\n    if st1 not in new_st.connected_to and st1 not in new_st.structures:\n"
+            "        new_st.connected_to.append(st1)",
+            "for (st_source, pin_source), (st_target, pin_target) in {**self.conn_dict, **st.conn_dict}.items():\n"
+            "    if not (st_source in new_st.structures and st_target in new_st.structures):\n"
+            "        new_st.conn_dict[st_source, pin_source] = (st_target, pin_target)"]
+    try:
+        k = texts.index(want[0])
+    except ValueError:
+        raise Unsupported("Structure.join: the loop building new_st.connected_to not found / changed")
+    if texts[k:k + 2] != want:
+        raise Unsupported("Structure.join: the tables of the merged structure changed: " + " ; ".join(texts[k:k + 2])[:400])
+    # new_st starts empty and its tables are written nowhere else in join; new_st.structures is complete before the loops
+    if "new_st = Structure()" not in texts:
+        raise Unsupported("Structure.join: new_st is not a fresh Structure()")
+    for i, st in enumerate(body):
+        for n in ast.walk(st):
+            if isinstance(n, ast.Attribute) and ast.unparse(n) in ("new_st.conn_dict", "new_st.connected_to") and not (k <= i < k + 2):
+                raise U(st, "Structure.join touches the merged structure's tables outside the two loops that build them")
+            if isinstance(n, ast.Attribute) and ast.unparse(n) == "new_st.structures" and i >= k and not (k <= i < k + 2):
+                raise U(st, "Structure.join changes new_st.structures after the tables are built")
+    return ("(* dict assignment d[k] = v / the merge {**a, **b} *)\n"
+            "Fixpoint cset (k v : spin) (d : list (spin * spin)) : list (spin * spin) :=\n"
+            "  match d with [] => [(k, v)] | it :: r => if spin_eqb (fst it) k then (k, v) :: r else it :: cset k v r end.\n"
+            "Definition dict_merge (a b : list (spin * spin)) : list (spin * spin) :=\n"
+            "  fold_left (fun d it => cset (fst it) (snd it) d) b a.\n\n"
+            "Definition join_conn_src (cdA cdB : list (spin * spin)) (structs : list nat) : list (spin * spin) :=\n"
+            "  fold_left (fun d it => if negb (idmem (fst (fst it)) structs && idmem (fst (snd it)) structs)\n"
+            "                         then cset (fst it) (snd it) d else d) (dict_merge cdA cdB) [].\n\n"
+            "Definition join_to_src (toA toB structs : list nat) : list nat :=\n"
+            "  fold_left (fun l s => if negb (idmem s l) && negb (idmem s structs) then l ++ [s] else l) (toA ++ toB) [].\n")
+
+
 def translate(repo: str) -> str:
     p = os.path.join(repo, "lekkersim", "structure.py")
     with open(p) as fh:
@@ -312,6 +348,7 @@ def translate(repo: str) -> str:
     out.append("End JoinSrc.")
     out.append(tr_join_links(find_fn(tree, "Structure", "join"), find_fn(tree, "Structure", "get_out_to"),
                              find_fn(tree, "Structure", "get_in_from")))
+    out.append(tr_join_tables(find_fn(tree, "Structure", "join")))
     return "\n".join(out) + "\n"
 
 
